@@ -50,8 +50,10 @@ KLOfTpl(t, a1, a2, sa, sb) ==
 ATpls == {"lin", "sum", "dbl"}
 AMath(t, a1, sa, sb) == IF t = "lin" THEN EAdd(EMul(V(a1), V(sa)), N(One))
                         ELSE IF t = "sum" THEN EAdd(V(sa), V(sb)) ELSE EMul(N(I(2)), V(a1))
-RTpls == {"prod", "decay", "const"}
-RMath(t, a1, sa) == IF t = "prod" THEN EMul(V(a1), V(sa)) ELSE IF t = "decay" THEN ESub(V(a1), V(sa)) ELSE N(I(3))
+\* "negsum": -a1*sa + 3, written with a leading unary minus that covers the FIRST term only
+RTpls == {"prod", "decay", "const", "negsum"}
+RMath(t, a1, sa) == IF t = "prod" THEN EMul(V(a1), V(sa)) ELSE IF t = "decay" THEN ESub(V(a1), V(sa))
+                    ELSE IF t = "negsum" THEN EAdd(ESub(N(Zero), EMul(V(a1), V(sa))), N(I(3))) ELSE N(I(3))
 
 Side1(a, s) == <<[sp |-> a, st |-> s]>>
 Side2(a, s, b, u) == <<[sp |-> a, st |-> s], [sp |-> b, st |-> u]>>
